@@ -127,6 +127,8 @@ def real_lines(rng, progs, per):
         exe = c12.exe_path(p)
         cases.append(p.line("TR", exe, ign="y"))
         cases.append(p.line("Rp", exe, ign="y", threads=[1, 2]))
+        if p.crate == "e2e_args":
+            cases.append(p.line("x", exe))
         cases.append(p.line("R", exe, ign="n", threads=[2, 3], sort="N"))
         for s in "knlKNL":
             cases.append(p.line("R", exe, ign="n", sort=s))
@@ -161,12 +163,19 @@ def streams(tier, rng):
         threads = rng.choice([[1, 2], [1, 2], [1, 2, 3], [2, 4], [2], [1], [3]])
         thr.append(reg.line(rng.choice(["R", "p", "Rp"]), ign=rng.choice("nny"), exact=exact, pos=pos, skip=skip,
                             sort=rng.choice("-knlKNL"), threads=threads))
+    # three concurrent runs in one process (argument expressions slowed down): every list evaluated once
+    conc = []
+    while len(conc) < (60 if big else 10):
+        reg = args_registry(rng, big_len=False)
+        conc.append(reg.line("x"))
     progs = [args_tour("e2e_args")] + [P.rand_program(rng, "e2e_a%d" % i, size=12) for i in range(1 if not big else 8)]
     real = real_lines(rng, progs, 4 if not big else 8)
     out = []
     if corpus:
         out.append(Stream("corpus", "c17", corpus, nontrivial=nt))
     out.append(Stream("args-sort-filter", "c17", syn, nontrivial=nt, hist=h))
+    out.append(Stream("concurrent-runs", "c17", conc, nontrivial=lambda c, m: "=" in m,
+                      describe="three threads released by a barrier, each Divan::default().test_benches(); evaluation count of every argument list"))
     out.append(Stream("thread-branches", "c17", thr, nontrivial=nt,
                       describe="--threads a,b / Divan::threads with one, two or three thread counts: row label per (argument, thread count)"))
     out.append(Stream("real-crates", "c17", real, nontrivial=nt, impl_runner=c12.build_then_run(progs), impl_timeout=900,
